@@ -114,10 +114,19 @@ def simp2(t):
 
 
 class Obligation:
-    __slots__ = ('kind', 'guard', 'where', 'msg')
+    """`guard` is built lazily from the state's conjunct tuple (+ an extra condition): most obligations are never
+    looked at individually, and building the conjunction eagerly dominated the run time of long loops"""
+    __slots__ = ('kind', '_guard', 'conj', 'extra', 'where', 'msg')
 
-    def __init__(self, kind, guard, where, msg):
-        self.kind, self.guard, self.where, self.msg = kind, guard, where, msg
+    def __init__(self, kind, guard, where, msg, conj=None, extra=True):
+        self.kind, self._guard, self.where, self.msg = kind, guard, where, msg
+        self.conj, self.extra = conj, extra
+
+    @property
+    def guard(self):
+        if self._guard is None:
+            self._guard = b_and(*([_gc_cond(x) for x in self.conj] + [self.extra]))
+        return self._guard
 
     def __repr__(self):
         return 'Obligation(%s @%s: %s)' % (self.kind, self.where, self.msg[:80])
@@ -222,7 +231,8 @@ def merge_arrivals(states):
             try:
                 store[key] = ite(c, a, b)
             except Unsupported as e:
-                raise Unsupported('merging %r: %s' % (key, e))
+                # usually a dead temporary (iterator, closure, ...): poison it; a later use is then reported
+                store[key] = Poison('merging %r: %s' % (key, e))
     disj = _reduce_suffixes(sufs)
     return State(store, conj=prefix + ((disj,) if disj is not True else ()))
 
@@ -574,6 +584,11 @@ class Executor:
             return
         self.obligations.append(Obligation(kind, guard, where, msg))
 
+    def oblige_state(self, kind, st, extra, where, msg):
+        if extra is False:
+            return
+        self.obligations.append(Obligation(kind, None, where, msg, conj=st.conj, extra=extra))
+
     # ------------------------------------------------------------ heap cells
     def alloc(self, st, value):
         root = ('H', next(self.heap_counter))
@@ -664,6 +679,8 @@ class Executor:
             v = st.store[root]
         for step in path:
             v = self.get_step(v, step)
+        if isinstance(v, Poison):
+            raise Unsupported('use of an unmergeable value: %s' % v.msg)
         return v
 
     def store_to(self, st, root, path, val, guard=True):
@@ -688,6 +705,10 @@ class Executor:
 
     def get_step(self, v, step, for_write=False):
         k = step[0]
+        if isinstance(v, Poison):
+            raise Unsupported('use of an unmergeable value: %s' % v.msg)
+        if k == 'e':
+            return v.ents[step[1]][1]
         if k == 'f':
             if isinstance(v, tuple):
                 return v[step[1]]
@@ -718,6 +739,10 @@ class Executor:
 
     def set_step(self, v, step, newv):
         k = step[0]
+        if k == 'e':
+            ents = list(v.ents)
+            ents[step[1]] = (ents[step[1]][0], newv)
+            return Seq(tuple(ents))
         if k == 'f':
             if isinstance(v, Closure):
                 env = list(v.env)
@@ -795,8 +820,14 @@ class Executor:
     # ------------------------------------------------------------ operands / rvalues
     def eval_operand(self, fr, op, st):
         k = op[0]
-        if k in ('copy', 'move'):
+        if k == 'copy':
             return self.read_place(fr, op[1], st)
+        if k == 'move':
+            v = self.read_place(fr, op[1], st)
+            if not op[1][2] and not isinstance(v, (CI, bool)):
+                # a moved-from local is uninitialised: forget it, so that dead temporaries are not merged at joins
+                st.store[('L', fr.fid, op[1][1])] = None
+            return v
         v, t = op[1], op[2]
         if isinstance(v, bool):
             return v
@@ -1256,6 +1287,8 @@ class Executor:
             return a
         if kind in ('PtrToPtr', 'Transmute') and isinstance(a, (Ptr, PtrIte)):
             return a
+        if kind == 'Transmute' and isinstance(a, tuple) and len(a) >= 1 and isinstance(a[0], (Ptr, PtrIte)):
+            return a[0]      # NonNull<T> / Unique<T> -> raw pointer
         if kind == 'Transmute':
             ws, wd = INT_TYPES.get(tsrc), INT_TYPES.get(tdst)
             if ws and wd and ws[0] == wd[0]:
@@ -1386,13 +1419,15 @@ class Executor:
                 c = self.eval_operand(fr, term[1], st)
                 good = c if term[2] else b_not(c)
                 if good is False:
-                    self.oblige('panic', st.guard, self.where(fr, bb), 'assert: ' + term[3])
+                    self.oblige_state('panic', st, True, self.where(fr, bb), 'assert: ' + term[3])
                     continue
                 if good is not True:
-                    self.oblige('panic', b_and(st.guard, b_not(good)), self.where(fr, bb), 'assert: ' + term[3])
+                    self.oblige_state('panic', st, b_not(good), self.where(fr, bb), 'assert: ' + term[3])
                     st.add_guard(good)
                 goto(bb, ctx, term[4], st)
             elif kk == 'drop':
+                if not term[1][2]:
+                    st.store[('L', fr.fid, term[1][1])] = None
                 if term[2] is not None:
                     goto(bb, ctx, term[2], st)
             elif kk == 'switch':
@@ -1444,7 +1479,7 @@ class Executor:
                     blk = item.blocks.get(t)
                     if blk is not None and not blk[0] and blk[1][0] == 'unreachable':
                         # compiler-asserted impossible value: obligation, does not count as an arm of the join
-                        self.oblige('unreachable', b_and(st.guard, grouped[t]), self.where(fr, t), 'MIR `unreachable` terminator')
+                        self.oblige_state('unreachable', st, grouped[t], self.where(fr, t), 'MIR `unreachable` terminator')
                         continue
                     if self.prune_solver is not None and not self.feasible(b_and(st.guard, grouped[t])):
                         continue
@@ -1465,7 +1500,7 @@ class Executor:
                 for i, t in enumerate(arms):
                     goto(bb, ctx, t, st.fork(GC(grouped[t], uid, i, len(arms))))
             elif kk == 'unreachable':
-                self.oblige('unreachable', st.guard, self.where(fr, bb), 'MIR `unreachable` terminator')
+                self.oblige_state('unreachable', st, True, self.where(fr, bb), 'MIR `unreachable` terminator')
             elif kk == 'resume':
                 pass
             elif kk == 'unparsed':
@@ -1673,7 +1708,7 @@ class CallCtx:
         """record a panic obligation for `cond` and continue on the complement"""
         if cond is False:
             return True
-        self.ex.oblige('panic', b_and(self.st.guard, cond), self.where, msg)
+        self.ex.oblige_state('panic', self.st, cond, self.where, msg)
         if cond is True:
             return False
         self.st.add_guard(b_not(cond))
